@@ -8,6 +8,8 @@ import (
 	"sync"
 
 	"github.com/ava-labs/avalanchego/utils/maybe"
+
+	"github.com/ava-labs/hypersdk/internal/verifhook"
 )
 
 // TState defines a struct for storing temporary state.
@@ -26,6 +28,7 @@ func New(changedSize int) *TState {
 }
 
 func (ts *TState) getChangedValue(_ context.Context, key string) ([]byte, bool, bool) {
+	verifhook.AwaitRLock("tstate.getChangedValue", verifhook.H(key), &ts.l)
 	ts.l.RLock()
 	defer ts.l.RUnlock()
 
